@@ -101,6 +101,8 @@ def run(chk, which="C13"):
         by = {p["id"]: p for p in probes}
         for pid, r in res.items():
             nprobe += 1
+            if r.get("unverified"):
+                continue
             p = by[pid]
             if p["kind"] == "quantity" and r["rejected"]:
                 raw = res[pid + 1]
